@@ -42,16 +42,16 @@ def run(chk, repo):
     chk.attempt(g3_threading, chk, op, "C06-Q1", options=("records_per_chunk",))
     chk.attempt(open_rpc, chk, repo)
     chk.attempt(advertised_chunks, chk, repo)
-    chk.attempt(q2, chk, repo, covered_by="advertised_chunks")
+    chk.attempt(q2, chk, repo, covered_by="advertised_chunks", rules=("C06-Q2",))
     chk.attempt(q3, chk, repo)
     chk.rule("C01-R7", "one chunk size keys both the offsets table and the row grouping (C06-Q4)", 4)
-    chk.attempt(chunk_key_agreement, chk, repo, covered_by="load_rpc")
     from ..records import Layouts
     chk.rule("C01-R5", "metadata pass: chunk offsets advance by the bytes actually read, for every records_per_chunk (C06-Q5)", 4)
     chk.attempt(trace_rpc, chk, repo)
     from .common_rules import stateless_constructs
     chk.attempt(stateless_constructs, chk, repo, "C05-F8")
     chk.attempt(load_rpc, chk, repo)
+    chk.attempt(chunk_key_agreement, chk, repo, covered_by="load_rpc", rules=("C01-R7",))
     chk.attempt(metadata_offsets, chk, repo, Layouts(repo), covered_by="trace_rpc", rules=("C01-R5",))
     from .c01 import chunk_sizes_spec
     chk.rule("C01-R8", "metadata pass: the requests add up to the header's record count for every records_per_chunk (C06-Q6)", 2)
